@@ -566,6 +566,25 @@ impl Wal {
     }
 
     pub fn rewrite_as_snapshot(&mut self, txid: u64, ops: Vec<WalRecord>) -> Result<()> {
+        let result = self.rewrite_as_snapshot_inner(txid, ops);
+        if result.is_err() && self.file.is_none() {
+            // The rewrite failed after the handle was released: reopen whatever log is at the
+            // path (the old one unless the rename already happened) so that the engine can
+            // keep appending instead of failing every later commit with "wal file is closed".
+            if let Ok(file) = OpenOptions::new()
+                .read(true)
+                .write(true)
+                .create(true)
+                .truncate(false)
+                .open(&self.path)
+            {
+                self.file = Some(file);
+            }
+        }
+        result
+    }
+
+    fn rewrite_as_snapshot_inner(&mut self, txid: u64, ops: Vec<WalRecord>) -> Result<()> {
         // Close the current file handle so we can replace it safely.
         let _ = self.file.take();
 
